@@ -55,6 +55,9 @@ CLAIMED = {
  "C08": dict(engine="E2", technique="stateless deviation-bounded schedule exploration under the race detector + brute-force linearizability check",
    text="Every (reader or refinement, writer) pair plus writer/writer, reader/reader and two-call programs, warm and cold, in sync, cached and async configurations: every schedule within the deviation bound is executed on the real code, once built with -race (hand-off invisible to the detector, lock grants mirrored on real mutexes; reports attributed to package sod are violations) and once without for a deeper bound, where the recorded history plus final state must be explained by a sequential order on the reference that respects real-time order.",
    note="2-3 threads x 1-2 calls; race phase bound 1 (quick) / 2; linearizability phase bound 2 (1 with the flusher on quick) / 3. Control/Repair while writes are pending are outside the statement and not scheduled in async configurations.", ref="6/C08"),
+ "C10": dict(engine="E1+E2", technique="explicit-state BFS with clock-tick events + schedule/tick-placement exploration under a virtual clock",
+   text="Histories with explicit clock ticks under three threshold/timeout settings: visibility after every call, barriers (FlushAll, FlushAllAndCommit, Close) checked against files decoded without sod code and against a second handle, deadlines checked by advancing only the virtual clock from every reached state; plus client programs against the background writer over all schedules and tick placements within the deviation bound (deleted-never-on-disk, completeness at Close, no panic).",
+   note="Virtual time: nothing is claimed about wall-clock accuracy of time.Sleep; single client thread in the timing programs.", ref="6/C10"),
 }
 
 NOT_YET = {}
